@@ -121,7 +121,8 @@ _LINE = {k: re.compile(rb"^" + _WS + rb"*" + pat + _WS + rb"*=" + _WS + rb"*([^ 
 
 def py_read(buf):
     """independent reading of an NCBI genetic-code text: (basic[64], init[64]) or None if malformed"""
-    lines = [l for l in buf.split(b"\n") if l.strip(b" \t\r\f\v") and not l.lstrip(b" \t\r\f\v").startswith(b"#")]
+    lines = [l.split(b"\0")[0] for l in buf.split(b"\n")]            # every line is handled as a C string
+    lines = [l for l in lines if l.strip(b" \t\r\f\v") and not l.lstrip(b" \t\r\f\v").startswith(b"#")]
     if len(lines) < 5: return None
     toks, start = [], None
     for key, l in zip(("aas", "starts", "b1", "b2", "b3"), lines):
@@ -162,8 +163,8 @@ class C17(Prop):
     theorems = ["EaselModel.Props.C17." + t for t in (
         "tables_pinned", "table_ids", "no_initiator_stop", "read_write_roundtrip", "rna_objects_ok", "expand_is_iupac", "translation_spec", "translation_shared",
         "initiator_spec", "initiator_settings", "window_split_invariant", "orf_stream_eq_spec", "orf_frame_declarative", "orf_numbering_and_order", "builtin_tables_ok",
-        "standard_code_by_amino_acid", "tables_differ_as_documented", "read_never_faults", "read_never_faults_hyps", "decode_digicodon_bounds", "decode_digicodon_inverse",
-        "compare_spec", "process_orf_spec", "translation_out_of_alphabet_faults")]
+        "standard_code_by_amino_acid", "tables_differ_as_documented", "read_never_faults", "read_never_faults_hyps", "write_never_faults", "write_never_faults_hyps", "read_ok_is_code", "decode_digicodon_bounds", "decode_digicodon_inverse",
+        "compare_spec", "process_orf_spec", "translation_out_of_alphabet_faults", "short_windows")]
     claimed = True
     technique = ("Lean 4 proof: built-in tables regenerated from the tree = hand-pinned NCBI tables by `decide`; general theorems (any table, any "
                  "degeneracy matrix) that the triple loop computes the shared amino acid / all-initiators; ORF machine modelled and tied by exact "
@@ -180,7 +181,7 @@ class C17(Prop):
                   "The machine model is tied to the tree by exact differential run and monitored against an independent ORF finder in Python. "
                   "Independently of the pinned strings, tables_differ_as_documented / standard_code_by_amino_acid (`decide` over the regenerated tables) state every table as its "
                   "documented differences from the standard code + its initiation codons, and the standard code by amino acid. read_never_faults: the column loop of esl_gencode_Read "
-                  "with every array access checked never leaves its arrays, for any bytes; decode_digicodon_bounds (every int), decode_digicodon_inverse, compare_spec, process_orf_spec "
+                  "with every array access checked never leaves its arrays, for any bytes; read_ok_is_code: whatever bytes Read accepts, all 64 codons were assigned by the file to an amino acid or the stop, flags 0/1, id -1; write_never_faults: Write on any well-formed code object reads inside its arrays; translation_out_of_alphabet_faults; decode_digicodon_bounds (every int), decode_digicodon_inverse, compare_spec, process_orf_spec "
                   "(emission iff length >= minlen, numbering, frame label, coordinates).")
     level_note = ("Trusted: Lean kernel + standard axioms; table dumper; hand model fidelity checked by the differential run (all 18^3 triplets x 18 tables "
                   "x 3 settings every run). The one-frame finder is proved equal to the declarative 'split the frame at stops, drop the codons before the first "
@@ -356,8 +357,8 @@ class C17(Prop):
             r = rng.random(); n = len(txt)
             if n == 0: break
             i = rng.randrange(n)
-            if r < 0.3: txt[i] = rng.choice([rng.randrange(256), rng.randrange(32, 127), 0x20, 0x09, 0x0d, 0x0c, 0x0b, 0x3d, 0x23, 0x2a, 0x2d, 0x4d, 0x6d, 0x55, 0x75, 0xff, 0x80])
-            elif r < 0.45: txt[i:i] = bytes([rng.choice([0x20, 0x09, 0x0a, 0x0d, 0x3d, 0x41, 0x54, 0x2a, 0x2d, rng.randrange(1, 256)])])
+            if r < 0.3: txt[i] = rng.choice([rng.randrange(256), rng.randrange(32, 127), 0x20, 0x09, 0x0d, 0x0c, 0x0b, 0x3d, 0x23, 0x2a, 0x2d, 0x4d, 0x6d, 0x55, 0x75, 0xff, 0x80, 0x00, 0x00])
+            elif r < 0.45: txt[i:i] = bytes([rng.choice([0x20, 0x09, 0x0a, 0x0d, 0x0b, 0x00, 0x3d, 0x41, 0x54, 0x2a, 0x2d, rng.randrange(1, 256)])])
             elif r < 0.6: del txt[i]
             elif r < 0.68: del txt[i:]                                                  # truncated file
             elif r < 0.76:
@@ -367,7 +368,7 @@ class C17(Prop):
             elif r < 0.9: txt[i:i] = rng.choice([b"\n", b"\n\n", b"\n# c\n", b"\r\n", b" \n \n"])
             elif r < 0.95: txt = bytearray(bytes(txt).replace(b"T", rng.choice([b"U", b"t", b"u"])))  # RNA / lower-case bases (also hits AAs 'T' = Thr)
             else: txt = bytearray(bytes(txt).replace(b"  =", rng.choice([b"=", b" =", b"   =", b"\t="]), rng.choice([1, 5])))
-        return bytes(txt).split(b"\0")[0] if rng.random() < 0.5 else bytes(txt)
+        return bytes(txt).split(b"\0")[0] if rng.random() < 0.2 else bytes(txt)
 
     def boundary_orfs(self, rng, tid):
         """ORFs of exactly minlen and minlen-1 residues; sequences of 0..5 residues; first window of 2 residues, later windows of
